@@ -39,10 +39,24 @@ def run(ck):
                                "calls": [dict(pcall(a, f, extra=False), allot=True) for a in PACKERS for f in ("list", "dict", "valueof")]})
                 ck.cat("barely_oversize")
     ck.rule = ("TLC enumerates every sequence of <=5 values in 0..C+2 containing at least one oversize item (every position and multiplicity); ff, ffd, bf, bfd "
-               "and bin-completion called on each as list / dict / names+valueof with all ten output types - every call must raise ValueError; TLC also "
+               "and bin-completion called on each as list / dict / names+valueof with all ten output types - every call must raise ValueError (also at bin sizes 2^53 and 1e16, "
+               "judged with two-limb comparison); TLC also "
                "enumerates every cbldm call with exactly one invalid argument (bin count, negative item(s), time limit, cardinality bound; each also as numpy float / numpy integer / Fraction) over small valid "
                "inputs, plus the all-valid control; numitems probed on both managers. non-trivial = distinct stimulus")
     traces = run_pack_groups(ck, groups, {"C19"}, "C19 oversize refusal", nontrivial=lambda t: True)
+    # magnitudes beyond TLC's integers: bin sizes 2^53 and 10^16 (exact python ints), an item one or two units larger, judged with two-limb comparison
+    big = []
+    for C in (2 ** 53, 10 ** 16):
+        for extra in (1, 2):
+            for shape in ([C + extra], [0, C + extra], [3, C + extra, 2], [C + extra, 5, 1], [C, C + extra], [1, 2, C + extra]):
+                big.append({"vals": shape, "C": C, "calls": [(a, f, ot) for a in PACKERS for f in ("list", "dict", "valueof") for ot in ("Partition", "Sums")]})
+    tb = core.pmap(drive.run_big_refuse, big)
+    for t in tb:
+        ck.evaluations += len(t["res"]); ck.cat("oversize_at_2^53_and_1e16")
+        t["res"] = [r for r in t["res"] if r["out"] != "timeout"]
+    fb = ck.judge("JBigRefuse", tb, {"C19"}, what="C19 oversize refusal at bin sizes 2^53 and 1e16 (two-limb comparison)")
+    ck.classify(fb, lambda fl: {"alg": fl["trace"]["res"][fl["e"] - 1]["alg"] if fl["e"] else None, "vals": fl["trace"]["rawvals"], "C": fl["trace"]["rawC"],
+                                "ev": fl["trace"]["res"][fl["e"] - 1] if fl["e"] else None})
     r = ck.mc("RefuseGen", "CONSTANTS MaxN = %d MaxV = 3\nINIT Init\nNEXT Next\n" % (3 if q else 4), "GEN cbldm argument grid")
     stim = sorted(r.emitted, key=lambda e: (e["kind"], e["arg"], e["vals"]))
     tr = core.pmap(drive.run_refuse, stim)
